@@ -165,6 +165,7 @@ Proof.
 Qed.
 
 End DIR.
+Arguments Dir {P}.
 
 (* 3-bit arithmetic *)
 Lemma num8_S i : ((num8 i + 1) mod 8)%N = num8 (S i).
@@ -611,7 +612,7 @@ Proof.
   - lia.
 Qed.
 
-Lemma inv_smove K akd st rxn st' out2 hb ftx subs okl nb nn hr nsub hupl dg2 g1 nr nupl ag2 q1 :
+Lemma inv_smove K akd st rxn st' out2 hb ftx subs okl nb nn hr (nsub hupl : list (list N)) dg2 g1 nr nupl ag2 q1 :
   HL st hb ftx subs okl ->
   Dir K nb nn hr nsub hupl dg2 (ags g1) ->
   Dir 1 hb (length ftx) nr (map snd ftx) nupl (dgs g1) ag2 ->
@@ -664,7 +665,7 @@ Proof.
     constructor.
     + rewrite Htx. exact Htx0.
     + rewrite Hk. split; [exact Hw|]. intro H. congruence.
-    + rewrite Hw, app_nil_r. destruct Hsub0 as (A & HA & Hss). exists (A ++ waiters st).
+    + destruct Hsub0 as (A & HA & Hss). exists (A ++ waiters st). rewrite Hw, app_nil_r.
       split; [exact HA|apply subseq_app_r; exact Hss].
     + exact Hok0.
   - (* acknowledged, nothing queued *)
@@ -676,7 +677,7 @@ Proof.
       * rewrite Hk. split; [exact Hw|]. intros _. exact Hlen.
       * rewrite Hw, <- Hw0. exact Hsub0.
       * intros x Hx. apply in_app_or in Hx. replace (hb + 1) with (S hb) by lia.
-        destruct Hx as [Hx|Hx]; [rewrite firstn_map in *|].
+        destruct Hx as [Hx|Hx].
         -- apply in_map_iff. apply Hok0 in Hx. apply in_map_iff in Hx. destruct Hx as (y & Hy & Hin).
            exists y. split; [exact Hy|apply in_firstn_S; exact Hin].
         -- apply Hok in Hx. subst x. rewrite (firstn_S_nth_error _ _ _ Hnth), map_app.
@@ -700,9 +701,511 @@ Proof.
         cbn [first_tx flat_map N.eqb app]. rewrite (firstn_app_exact _ _ _ Hlen).
         replace (hb + 1) with (S hb) by lia.
         destruct Hx as [Hx|Hx].
-        -- rewrite firstn_map in *. apply in_map_iff. apply Hok0 in Hx. apply in_map_iff in Hx.
+        -- apply in_map_iff. apply Hok0 in Hx. apply in_map_iff in Hx.
            destruct Hx as (y & Hy & Hin). exists y. split; [exact Hy|apply in_firstn_S; exact Hin].
         -- apply Hok in Hx. subst x. rewrite (firstn_S_nth_error _ _ _ Hnth), map_app.
            apply in_or_app. right. left. reflexivity.
     + rewrite ags_snoc. cbn [ga]. apply dir_ack_snoc. exact D1.
+Qed.
+
+(* ---- the invariant of the composed system --------------------------------------------------------
+   g1 / g2: ghosts of the frames in the host->NCP / NCP->host queue; hb: number of the host's sends
+   acknowledged so far (its window is [hb, length ftx), ftx = first transmissions so far).
+   Direction NCP->host: sender counters n_base/n_next, receiver counter = number of HUp so far.
+   Direction host->NCP: sender counters hb/length ftx, receiver counter n_rx.
+   Every frame acknowledges for the direction opposite to the one it travels in. *)
+Record Inv (K : nat) (subs : list (N * list N)) (s : lstate) (g1 g2 : list gh) (hb : nat) : Prop := {
+  i_g : GInv (hs s);
+  i_rx : rx_seq (hs s) = num8 (length (ups_of (htrace s)));
+  i_hl : HL (hs s) hb (first_tx (htrace s)) subs (oks (htrace s));
+  i_nr : n_rx (ns s) = length (nups s);
+  i_d1 : Dir K (n_base (ns s)) (n_next (ns s)) (length (ups_of (htrace s))) (n_sub (ns s))
+             (ups_of (htrace s)) (dgs g2) (ags g1);
+  i_d2 : Dir 1 hb (length (first_tx (htrace s))) (n_rx (ns s)) (map snd (first_tx (htrace s)))
+             (nups s) (dgs g1) (ags g2);
+  i_f1 : Forall2 (fr_ok (n_sub (ns s))) (n2h s) g2;
+  i_f2 : Forall2 (fr_ok (map snd (first_tx (htrace s)))) (h2n s) g1
+}.
+Definition SInv (K : nat) (subs : list (N * list N)) (s : lstate) : Prop :=
+  exists g1 g2 hb, Inv K subs s g1 g2 hb.
+
+Lemma inv_init K : Inv K [] l_init [] [] 0.
+Proof.
+  constructor; cbn [l_init hs ns h2n n2h htrace nups first_tx ups_of oks flat_map n_init n_rx n_base n_next
+                    n_sub length map dgs ags].
+  - unfold GInv, quiescent. cbn [h_init cur waiters failed].
+    split; [intros c H; discriminate|]. split; [reflexivity|intro H; discriminate].
+  - reflexivity.
+  - constructor; cbn [h_init tx_seq cur_key cur waiters failed length firstn map].
+    + reflexivity.
+    + split; reflexivity.
+    + exists []. split; [reflexivity|apply ss_nil].
+    + intros id [].
+  - reflexivity.
+  - apply dir_init.
+  - apply dir_init.
+  - constructor.
+  - constructor.
+Qed.
+
+Lemma dgs_cons_some g gl x : gd g = Some x -> dgs (g :: gl) = x :: dgs gl.
+Proof. intro H. unfold dgs. cbn [flat_map]. rewrite H. reflexivity. Qed.
+Lemma dgs_cons_none g gl : gd g = None -> dgs (g :: gl) = dgs gl.
+Proof. intro H. unfold dgs. cbn [flat_map]. rewrite H. reflexivity. Qed.
+
+Lemma dir_gtl {P} W b n r (S D : list P) g gl ag : Dir W b n r S D (dgs (g :: gl)) ag -> Dir W b n r S D (dgs gl) ag.
+Proof.
+  destruct (gd g) as [x|] eqn:E.
+  - rewrite (dgs_cons_some _ _ _ E). apply dir_dtl.
+  - rewrite (dgs_cons_none _ _ E). intro H; exact H.
+Qed.
+Lemma dir_gdup {P} W b n r (S D : list P) g gl ag :
+  Dir W b n r S D (dgs (g :: gl)) ag -> Dir W b n r S D (dgs (g :: g :: gl)) ag.
+Proof.
+  destruct (gd g) as [x|] eqn:E.
+  - rewrite !(dgs_cons_some _ _ _ E). apply dir_ddup.
+  - rewrite !(dgs_cons_none _ _ E). intro H; exact H.
+Qed.
+
+(* ---- the line loses or duplicates a frame ------------------------------------------------------- *)
+Lemma inv_hdrop K subs s : SInv K subs s -> SInv K subs (set_n2h s (tl (n2h s))).
+Proof.
+  intros (g1 & g2 & hb & [Hg Hrx Hhl Hnr D1 D2 F1 F2]).
+  destruct (n2h s) as [|f q] eqn:E.
+  - exists g1, g2, hb. constructor; cbn [set_n2h hs ns h2n n2h htrace nups tl]; try assumption.
+  - inversion F1 as [|? gf ? gq Hf Hq]; subst. exists g1, gq, hb.
+    constructor; cbn [set_n2h hs ns h2n n2h htrace nups tl]; try assumption.
+    + eapply dir_gtl. exact D1.
+    + eapply dir_atl. exact D2.
+Qed.
+
+Lemma inv_hdup K subs s : SInv K subs s -> SInv K subs (set_n2h s (dup_head (n2h s))).
+Proof.
+  intros (g1 & g2 & hb & [Hg Hrx Hhl Hnr D1 D2 F1 F2]).
+  destruct (n2h s) as [|f q] eqn:E.
+  - exists g1, g2, hb. constructor; cbn [set_n2h hs ns h2n n2h htrace nups dup_head]; try assumption.
+  - inversion F1 as [|? gf ? gq Hf Hq]; subst. exists g1, (gf :: gf :: gq), hb.
+    constructor; cbn [set_n2h hs ns h2n n2h htrace nups dup_head]; try assumption.
+    + apply dir_gdup. exact D1.
+    + apply dir_adup. exact D2.
+    + apply frs_ok_dup. exact F1.
+Qed.
+
+Lemma inv_ndrop K subs s : SInv K subs s -> SInv K subs (set_h2n s (tl (h2n s))).
+Proof.
+  intros (g1 & g2 & hb & [Hg Hrx Hhl Hnr D1 D2 F1 F2]).
+  destruct (h2n s) as [|f q] eqn:E.
+  - exists g1, g2, hb. constructor; cbn [set_h2n hs ns h2n n2h htrace nups tl]; try assumption.
+  - inversion F2 as [|? gf ? gq Hf Hq]; subst. exists gq, g2, hb.
+    constructor; cbn [set_h2n hs ns h2n n2h htrace nups tl]; try assumption.
+    + eapply dir_atl. exact D1.
+    + eapply dir_gtl. exact D2.
+Qed.
+
+Lemma inv_ndup K subs s : SInv K subs s -> SInv K subs (set_h2n s (dup_head (h2n s))).
+Proof.
+  intros (g1 & g2 & hb & [Hg Hrx Hhl Hnr D1 D2 F1 F2]).
+  destruct (h2n s) as [|f q] eqn:E.
+  - exists g1, g2, hb. constructor; cbn [set_h2n hs ns h2n n2h htrace nups dup_head]; try assumption.
+  - inversion F2 as [|? gf ? gq Hf Hq]; subst. exists (gf :: gf :: gq), g2, hb.
+    constructor; cbn [set_h2n hs ns h2n n2h htrace nups dup_head]; try assumption.
+    + apply dir_adup. exact D1.
+    + apply dir_gdup. exact D2.
+    + apply frs_ok_dup. exact F2.
+Qed.
+
+(* ---- the NCP's own moves ------------------------------------------------------------------------ *)
+(* it writes a frame without DATA *)
+Lemma inv_ncp_ctl K subs s f : SInv K subs s ->
+  (f = Ack 0 0 (num8 (n_rx (ns s))) \/ f = Nak 0 0 (num8 (n_rx (ns s)))) ->
+  SInv K subs (ncp_sends s (ns s) [f]).
+Proof.
+  intros (g1 & g2 & hb & [Hg Hrx Hhl Hnr D1 D2 F1 F2]) Hf.
+  exists g1, (g2 ++ [{| ga := n_rx (ns s); gd := None |}]), hb.
+  constructor; cbn [ncp_sends hs ns h2n n2h htrace nups]; try assumption.
+  - rewrite dgs_snoc_none. exact D1.
+  - rewrite ags_snoc. cbn [ga]. apply dir_ack_snoc. exact D2.
+  - apply frs_ok_snoc; [exact F1|]. destruct Hf as [Hf|Hf]; subst f; cbn [fr_ok ga gd]; split; reflexivity.
+Qed.
+
+Lemma inv_nsubmit K subs s p : SInv K subs s ->
+  SInv K subs (ncp_sends s {| n_rx := n_rx (ns s); n_base := n_base (ns s); n_next := n_next (ns s);
+                              n_sub := n_sub (ns s) ++ [p] |} []).
+Proof.
+  intros (g1 & g2 & hb & [Hg Hrx Hhl Hnr D1 D2 F1 F2]).
+  exists g1, g2, hb.
+  constructor; cbn [ncp_sends hs ns h2n n2h htrace nups n_rx n_base n_next n_sub]; try assumption.
+  - apply dir_sent_app. exact D1.
+  - rewrite app_nil_r. apply frs_ok_app. exact F1.
+Qed.
+
+Lemma inv_ndata K subs s i re : SInv K subs s ->
+  n_base (ns s) <= i -> i <= n_next (ns s) -> i < n_base (ns s) + K -> i < length (n_sub (ns s)) ->
+  SInv K subs (ncp_sends s {| n_rx := n_rx (ns s); n_base := n_base (ns s);
+                              n_next := Nat.max (n_next (ns s)) (S i); n_sub := n_sub (ns s) |}
+                 [Data (num8 i) (bit re) (num8 (n_rx (ns s))) (nth i (n_sub (ns s)) [])]).
+Proof.
+  intros (g1 & g2 & hb & [Hg Hrx Hhl Hnr D1 D2 F1 F2]) H1 H2 H3 H4.
+  exists g1, (g2 ++ [{| ga := n_rx (ns s); gd := Some (n_base (ns s), i) |}]), hb.
+  constructor; cbn [ncp_sends hs ns h2n n2h htrace nups n_rx n_base n_next n_sub]; try assumption.
+  - rewrite dgs_snoc_some. apply dir_send; assumption.
+  - rewrite ags_snoc. cbn [ga]. apply dir_ack_snoc. exact D2.
+  - apply frs_ok_snoc; [exact F1|]. cbn [fr_ok ga gd]. split; [reflexivity|].
+    exists (n_base (ns s)), i. split; [reflexivity|]. split; [reflexivity|].
+    apply nth_error_nth'. exact H4.
+Qed.
+
+(* the NCP discards an unparsable frame and asks again *)
+Lemma inv_ncorrupt K subs s f q : SInv K subs s -> h2n s = f :: q ->
+  SInv K subs (ncp_sends (set_h2n s q) (ns s) [Nak 0 0 (num8 (n_rx (ns s)))]).
+Proof.
+  intros H E. pose proof (inv_ndrop K subs s H) as H1. rewrite E in H1. cbn [tl] in H1.
+  apply (inv_ncp_ctl K subs (set_h2n s q) (Nak 0 0 (num8 (n_rx (ns s)))) H1). right. reflexivity.
+Qed.
+
+(* ---- the NCP reads a frame ---------------------------------------------------------------------- *)
+Lemma n_ack_spec n a : n_base n <= a -> a <= n_next n -> a <= n_base n + 7 ->
+  n_ack n (num8 a) = {| n_rx := n_rx n; n_base := a; n_next := n_next n; n_sub := n_sub n |}.
+Proof.
+  intros H1 H2 H3. unfold n_ack. rewrite ack_decode by lia.
+  replace (n_base n + (a - n_base n)) with a by lia.
+  destruct (Nat.leb_spec a (n_next n)); [reflexivity|lia].
+Qed.
+
+Lemma fr_ok_ack S f g : fr_ok S f g -> f_ack f = Some (num8 (ga g)).
+Proof.
+  destruct f as [frm re a p|x y a|x y a| |v c|v c]; cbn [fr_ok f_ack]; try (intro Hf; destruct Hf; fail);
+    intros [E _]; rewrite E; reflexivity.
+Qed.
+
+Lemma inv_ndeliver K subs s f q : K <= 7 -> SInv K subs s -> h2n s = f :: q ->
+  SInv K subs {| hs := hs s; ns := fst (n_recv (ns s) f); h2n := q; n2h := n2h s; htrace := htrace s;
+                 nups := nups s ++ snd (n_recv (ns s) f) |}.
+Proof.
+  intros HK (g1 & g2 & hb & [Hg Hrx Hhl Hnr D1 D2 F1 F2]) E. rewrite E in F2.
+  inversion F2 as [|? gf ? gq Hf Hq]; subst.
+  assert (Hags : ags (gf :: gq) = ga gf :: ags gq) by reflexivity. rewrite Hags in D1.
+  destruct (dir_ahead _ _ _ _ _ _ _ _ _ _ D1) as (Ha1 & Ha2 & _).
+  pose proof D1 as Hd. destruct Hd as [_ Hrn Hnb _ _ _ _ _ _].
+  assert (Eack : n_ack (ns s) (num8 (ga gf)) =
+                 {| n_rx := n_rx (ns s); n_base := ga gf; n_next := n_next (ns s); n_sub := n_sub (ns s) |}).
+  { apply n_ack_spec; lia. }
+  apply dir_ack in D1.
+  destruct f as [frm re a p|x y a|x y a| |v c|v c]; cbn [fr_ok] in Hf; try contradiction.
+  - destruct Hf as (Ea & b & i & Egd & Efrm & Enth). subst a frm.
+    cbn [n_recv]. rewrite Eack. cbn [n_rx n_base n_next n_sub].
+    rewrite (dgs_cons_some _ _ _ Egd) in D2.
+    destruct (num8 i =? num8 (n_rx (ns s)))%N eqn:Eq.
+    + apply N.eqb_eq in Eq. apply num8_mod in Eq.
+      destruct (dir_accept _ 1 _ _ _ _ _ _ _ _ _ p ltac:(lia) D2 Eq Enth) as [Ei D2'].
+      exists gq, g2, hb. constructor; cbn [hs ns h2n n2h htrace nups fst snd n_rx n_base n_next n_sub]; try assumption.
+      * rewrite app_length. cbn [length]. lia.
+    + apply dir_dtl in D2.
+      exists gq, g2, hb. constructor; cbn [hs ns h2n n2h htrace nups fst snd n_rx n_base n_next n_sub];
+        rewrite ?app_nil_r; try assumption.
+  - destruct Hf as (Ea & Egd). subst a. cbn [n_recv]. rewrite Eack. rewrite (dgs_cons_none _ _ Egd) in D2.
+    exists gq, g2, hb. constructor; cbn [hs ns h2n n2h htrace nups fst snd n_rx n_base n_next n_sub];
+      rewrite ?app_nil_r; try assumption.
+  - destruct Hf as (Ea & Egd). subst a. cbn [n_recv]. rewrite Eack. rewrite (dgs_cons_none _ _ Egd) in D2.
+    exists gq, g2, hb. constructor; cbn [hs ns h2n n2h htrace nups fst snd n_rx n_base n_next n_sub];
+      rewrite ?app_nil_r; try assumption.
+Qed.
+
+(* ---- the host's events --------------------------------------------------------------------------- *)
+(* timeout, passage of time, cancellation of a caller *)
+Lemma inv_host_plain K subs s e : SInv K subs s ->
+  smove false (hs s) (rx_seq (hs s)) (fst (host_step (hs s) e)) (snd (host_step (hs s) e)) ->
+  rx_seq (fst (host_step (hs s) e)) = rx_seq (hs s) ->
+  SInv K subs (host_do s e).
+Proof.
+  intros (g1 & g2 & hb & [Hg Hrx Hhl Hnr D1 D2 F1 F2]) M Hrx'.
+  destruct (inv_smove K false (hs s) (rx_seq (hs s)) _ _ hb _ subs _ _ _ _ _ _ _ g1 _ _ _ (h2n s)
+              Hhl D1 D2 F2 Hrx M ltac:(discriminate)) as (g1' & hb' & Hhl' & D1' & D2' & F2' & Hups).
+  exists g1', g2, hb'. unfold host_do.
+  constructor; cbn [hs ns h2n n2h htrace nups]; rewrite ?first_tx_app, ?oks_app, ?ups_of_app, ?Hups, ?app_nil_r;
+    try assumption.
+  - apply step_ginv. exact Hg.
+  - rewrite Hrx'. exact Hrx.
+Qed.
+
+Lemma inv_submit K subs s id p : SInv K subs s -> SInv K (subs ++ [(id, p)]) (host_do s (Submit id p)).
+Proof.
+  intros (g1 & g2 & hb & [Hg Hrx Hhl Hnr D1 D2 F1 F2]).
+  destruct (submit_cases (hs s) id p Hg) as (Hrx' & Hc). cbv zeta in Hrx', Hc.
+  pose proof (step_ginv (hs s) (Submit id p) Hg) as Hg'.
+  destruct Hhl as [Htx0 Hcur0 Hsub0 Hok0].
+  destruct Hc as [(Hcu & Htx & Hf & Hw & Hk & Hout)
+                 |[(Hcu & Hf0 & Htx & Hf & Hw & Hk & (Hn1 & Hn2 & Hn3) & Hok)
+                  |(Hcu & Hf0 & Htx & Hf & Hw & Hk & t & Hout)]].
+  - (* queued *)
+    exists g1, g2, hb. unfold host_do.
+    constructor; cbn [hs ns h2n n2h htrace nups]; rewrite ?Hout, ?app_nil_r; try assumption.
+    + rewrite Hrx'. exact Hrx.
+    + constructor.
+      * rewrite Htx. exact Htx0.
+      * rewrite Hk, Hf. destruct (cur_key (hs s)) as [[[i q] frm]|] eqn:Ek; [exact Hcur0|].
+        unfold cur_key in Ek. destruct (cur (hs s)); [discriminate|contradiction].
+      * rewrite Hw. destruct Hsub0 as (A & HA & Hss). exists A. split; [rewrite HA, app_assoc; reflexivity|exact Hss].
+      * exact Hok0.
+  - (* refused at once: the link has failed *)
+    assert (Ek : cur_key (hs s) = None) by (unfold cur_key; rewrite Hcu; reflexivity).
+    rewrite Ek in Hcur0. destruct Hcur0 as [Hw0 _].
+    exists g1, g2, hb. unfold host_do.
+    constructor; cbn [hs ns h2n n2h htrace nups];
+      rewrite ?first_tx_app, ?oks_app, ?ups_of_app, ?Hn1, ?Hn2, ?Hn3, ?Hok, ?app_nil_r; try assumption.
+    + rewrite Hrx'. exact Hrx.
+    + constructor.
+      * rewrite Htx. exact Htx0.
+      * rewrite Hk. split; [exact Hw|]. intro H. congruence.
+      * destruct Hsub0 as (A & HA & Hss). exists (A ++ [(id, p)]). rewrite Hw, app_nil_r.
+        rewrite Hw0, app_nil_r in HA. split; [rewrite HA; reflexivity|apply subseq_app_r; exact Hss].
+      * exact Hok0.
+  - (* transmitted *)
+    assert (Ek : cur_key (hs s) = None) by (unfold cur_key; rewrite Hcu; reflexivity).
+    rewrite Ek in Hcur0. destruct Hcur0 as [Hw0 Hlen]. specialize (Hlen Hf0).
+    destruct (start_piece hb _ _ _ g1 _ (h2n s) id p (tx_seq (hs s)) (rx_seq (hs s))
+                (length (ups_of (htrace (s)))) t Hlen Htx0 Hrx D2 F2) as (E1 & E2 & E3 & E4).
+    exists (g1 ++ [{| ga := length (ups_of (htrace s)); gd := Some (hb, hb) |}]), g2, hb. unfold host_do.
+    constructor; cbn [hs ns h2n n2h htrace nups]; rewrite ?Hout, ?first_tx_app, ?oks_app, ?ups_of_app;
+      try assumption.
+    + rewrite Hrx'. cbn [ups_of flat_map]. rewrite app_nil_r. exact Hrx.
+    + constructor.
+      * rewrite Htx, Htx0, num8_S. f_equal. cbn [first_tx flat_map N.eqb app]. rewrite app_length. cbn. lia.
+      * rewrite Hk. split; [exact E4|]. split; [rewrite Htx0, Hlen; reflexivity|]. split; [exact Hf|exact E3].
+      * destruct Hsub0 as (A & HA & Hss). exists (A ++ [(id, p)]). rewrite Hw, app_nil_r.
+        rewrite Hw0, app_nil_r in HA. split; [rewrite HA; reflexivity|].
+        cbn [first_tx flat_map N.eqb app]. apply subseq_snoc. exact Hss.
+      * cbn [oks flat_map app]. rewrite app_nil_r. intros x Hx.
+        rewrite (firstn_app_exact _ _ _ Hlen). apply Hok0. exact Hx.
+    + cbn [ups_of flat_map]. rewrite app_nil_r, ags_snoc. cbn [ga]. apply dir_ack_snoc. exact D1.
+Qed.
+
+(* an unparsable frame reaches the host: CANCEL + NAK *)
+Lemma inv_hcorrupt K subs s f q : SInv K subs s -> n2h s = f :: q ->
+  SInv K subs {| hs := hs s; ns := ns s; h2n := h2n s ++ wire [HCancelNak (rx_seq (hs s))]; n2h := q;
+                 htrace := htrace s ++ [HCancelNak (rx_seq (hs s))]; nups := nups s |}.
+Proof.
+  intros H E. pose proof (inv_hdrop K subs s H) as H1. rewrite E in H1. cbn [tl] in H1.
+  destruct H1 as (g1 & g2 & hb & [Hg Hrx Hhl Hnr D1 D2 F1 F2]).
+  cbn [set_n2h hs ns h2n n2h htrace nups] in *.
+  exists (g1 ++ [{| ga := length (ups_of (htrace s)); gd := None |}]), g2, hb.
+  constructor; cbn [hs ns h2n n2h htrace nups wire wire_of flat_map app];
+    rewrite ?first_tx_app, ?oks_app, ?ups_of_app; cbn [first_tx oks ups_of flat_map]; rewrite ?app_nil_r;
+    try assumption.
+  - rewrite ags_snoc. cbn [ga]. apply dir_ack_snoc. exact D1.
+  - rewrite dgs_snoc_none. exact D2.
+  - apply frs_ok_snoc; [exact F2|]. cbn [fr_ok ga gd]. split; [exact Hrx|reflexivity].
+Qed.
+
+(* ---- the host reads a frame ---------------------------------------------------------------------- *)
+(* the receiver half: rx_frame against the NCP->host direction *)
+Lemma rx_phase K nb nn (nsub hupl : list (list N)) f gf gq g1 rx P2 q1 :
+  K <= 7 -> fr_ok nsub f gf -> rx = num8 (length hupl) ->
+  Dir K nb nn (length hupl) nsub hupl (dgs (gf :: gq)) (ags g1) ->
+  Forall2 (fr_ok P2) q1 g1 ->
+  let o1 := flat_map out_of_rx (snd (rx_frame rx f)) in
+  exists g1a,
+    first_tx o1 = [] /\ oks o1 = [] /\ dgs g1a = [] /\
+    fst (rx_frame rx f) = num8 (length (hupl ++ ups_of o1)) /\
+    Dir K nb nn (length (hupl ++ ups_of o1)) nsub (hupl ++ ups_of o1) (dgs gq) (ags (g1 ++ g1a)) /\
+    Forall2 (fr_ok P2) (q1 ++ wire o1) (g1 ++ g1a).
+Proof.
+  intros HK Hf Hrx D1 F2 o1. subst o1.
+  destruct f as [frm re a p|x y a|x y a| |v c|v c]; cbn [fr_ok] in Hf; try contradiction.
+  - destruct Hf as (Ea & b & i & Egd & Efrm & Enth). subst a frm.
+    rewrite (dgs_cons_some _ _ _ Egd) in D1. cbn [rx_frame].
+    destruct (num8 i =? rx)%N eqn:Eq.
+    + apply N.eqb_eq in Eq. rewrite Hrx in Eq. pose proof (num8_mod _ _ Eq) as Em.
+      destruct (dir_accept _ K _ _ _ _ _ _ _ _ _ p HK D1 Em Enth) as [Ei D1']. subst i.
+      cbn [fst snd flat_map out_of_rx app ups_of first_tx oks wire wire_of].
+      rewrite app_length. cbn [length]. rewrite Nat.add_1_r, num8_S.
+      exists [{| ga := S (length hupl); gd := None |}].
+      split; [reflexivity|]. split; [reflexivity|]. split; [reflexivity|]. split; [reflexivity|].
+      split.
+      * rewrite ags_snoc. cbn [ga]. apply dir_ack_snoc. exact D1'.
+      * apply frs_ok_snoc; [exact F2|]. cbn [fr_ok ga gd]. split; reflexivity.
+    + apply dir_dtl in D1.
+      destruct (negb (re =? 0)%N); cbn [fst snd flat_map out_of_rx app ups_of first_tx oks wire wire_of];
+        rewrite !app_nil_r; exists [{| ga := length hupl; gd := None |}];
+        (split; [reflexivity|]); (split; [reflexivity|]); (split; [reflexivity|]); (split; [exact Hrx|]);
+        (split; [rewrite ags_snoc; cbn [ga]; apply dir_ack_snoc; exact D1
+                |apply frs_ok_snoc; [exact F2|]; cbn [fr_ok ga gd]; split; [exact Hrx|reflexivity]]).
+  - destruct Hf as (Ea & Egd). rewrite (dgs_cons_none _ _ Egd) in D1.
+    cbn [rx_frame fst snd flat_map out_of_rx app ups_of first_tx oks wire wire_of]. rewrite !app_nil_r.
+    exists []. rewrite !app_nil_r. split; [reflexivity|]. split; [reflexivity|]. split; [reflexivity|].
+    split; [exact Hrx|]. split; [exact D1|exact F2].
+  - destruct Hf as (Ea & Egd). rewrite (dgs_cons_none _ _ Egd) in D1.
+    cbn [rx_frame fst snd flat_map out_of_rx app ups_of first_tx oks wire wire_of]. rewrite !app_nil_r.
+    exists []. rewrite !app_nil_r. split; [reflexivity|]. split; [reflexivity|]. split; [reflexivity|].
+    split; [exact Hrx|]. split; [exact D1|exact F2].
+Qed.
+
+Lemma inv_hdeliver K subs s f q : K <= 7 -> SInv K subs s -> n2h s = f :: q ->
+  SInv K subs (host_do (set_n2h s q) (Frames [f])).
+Proof.
+  intros HK (g1 & g2 & hb & [Hg Hrx Hhl Hnr D1 D2 F1 F2]) E. rewrite E in F1.
+  inversion F1 as [|? gf ? gq Hf Hq]; subst.
+  pose proof (fr_ok_ack _ _ _ Hf) as Hfa.
+  destruct (frame_smove (hs s) f (num8 (ga gf)) Hg Hfa) as (out2 & Hout & Hrx' & M). cbv zeta in Hout, Hrx', M.
+  destruct (rx_phase K _ _ _ _ f gf gq g1 (rx_seq (hs s)) _ (h2n s) HK Hf Hrx D1 F2)
+    as (g1a & Hn1 & Hn2 & Hn3 & Erx & D1' & F2').
+  cbv zeta in Hn1, Hn2, Hn3, Erx, D1', F2'.
+  set (o1 := flat_map out_of_rx (snd (rx_frame (rx_seq (hs s)) f))) in *.
+  assert (Hags : ags (gf :: gq) = ga gf :: ags gq) by reflexivity. rewrite Hags in D2.
+  destruct (dir_ahead _ _ _ _ _ _ _ _ _ _ D2) as (Ha1 & Ha2 & Ha3).
+  pose proof D2 as Hd. destruct Hd as [_ Hrn _ _ _ _ _ _ _].
+  apply dir_atl in D2.
+  assert (D2a : Dir 1 hb (length (first_tx (htrace s))) (n_rx (ns s)) (map snd (first_tx (htrace s)))
+                    (nups s) (dgs (g1 ++ g1a)) (ags gq)).
+  { rewrite dgs_app, Hn3, app_nil_r. exact D2. }
+  assert (Hak : ackd (hs s) (num8 (ga gf)) = true ->
+                hb + 1 <= n_rx (ns s) /\ Forall (fun x => hb + 1 <= x) (ags gq)).
+  { unfold ackd. destruct (cur (hs s)) as [c|] eqn:Hc; [|discriminate]. intro Hm. apply N.eqb_eq in Hm.
+    pose proof (hl_cur _ _ _ _ _ Hhl) as Hcu. rewrite (cur_key_some _ _ Hc) in Hcu.
+    destruct Hcu as (Hlen & Hfrm & _). rewrite Hfrm in Hm.
+    assert (ga gf = hb + 1) by (apply host_ack_match; [lia|lia|exact Hm]).
+    split; [lia|]. eapply Forall_impl; [|exact Ha3]. cbn. intros; lia. }
+  destruct (inv_smove K _ (hs s) _ _ _ hb _ subs _ _ _ _ _ _ _ _ _ _ _ _ Hhl D1' D2a F2' Erx M Hak)
+    as (g1' & hb' & Hhl' & D1'' & D2' & F2'' & Hups).
+  exists g1', gq, hb'. unfold host_do.
+  cbn [set_n2h hs ns h2n n2h htrace nups]. rewrite Hout.
+  constructor; cbn [hs ns h2n n2h htrace nups];
+    rewrite ?first_tx_app, ?oks_app, ?ups_of_app, ?wire_app, ?Hups, ?Hn1, ?Hn2; cbn [app];
+    rewrite ?app_nil_r, ?app_assoc; try assumption.
+  - apply (step_ginv (hs s) (Frames [f])). exact Hg.
+  - rewrite Hrx'. exact Erx.
+Qed.
+
+(* ---- every label preserves the invariant --------------------------------------------------------- *)
+Lemma inv_step K subs s l : K <= 7 -> SInv K subs s -> SInv K (subs ++ lsubmits [l]) (link_step K s l).
+Proof.
+  intros HK H.
+  destruct l as [id p|id| |t|p|i re| | | | | | | | | | ]; cbn [lsubmits flat_map app link_step]; rewrite ?app_nil_r.
+  - apply inv_submit. exact H.
+  - destruct H as (g1 & g2 & hb & HI). destruct (cancel_smove (hs s) id) as [M Hr].
+    apply inv_host_plain; [exists g1, g2, hb; exact HI|exact M|exact Hr].
+  - destruct H as (g1 & g2 & hb & HI). destruct (tick_smove (hs s) (i_g _ _ _ _ _ _ HI)) as [M Hr].
+    apply inv_host_plain; [exists g1, g2, hb; exact HI|exact M|exact Hr].
+  - destruct H as (g1 & g2 & hb & HI). destruct (wait_smove (hs s) t) as [M Hr].
+    apply inv_host_plain; [exists g1, g2, hb; exact HI|exact M|exact Hr].
+  - apply inv_nsubmit. exact H.
+  - destruct (Nat.leb_spec (n_base (ns s)) i); cbn [andb]; [|exact H].
+    destruct (Nat.leb_spec i (n_next (ns s))); cbn [andb]; [|exact H].
+    destruct (Nat.ltb_spec i (n_base (ns s) + K)); cbn [andb]; [|exact H].
+    destruct (Nat.ltb_spec i (length (n_sub (ns s)))); [|exact H].
+    apply inv_ndata; assumption.
+  - apply inv_ncp_ctl; [exact H|left; reflexivity].
+  - apply inv_ncp_ctl; [exact H|right; reflexivity].
+  - destruct (n2h s) as [|f q] eqn:E; [exact H|]. apply inv_hdeliver; assumption.
+  - apply inv_hdrop. exact H.
+  - apply inv_hdup. exact H.
+  - destruct (n2h s) as [|f q] eqn:E; [exact H|]. eapply inv_hcorrupt; eassumption.
+  - destruct (h2n s) as [|f q] eqn:E; [exact H|]. cbv zeta. apply inv_ndeliver; assumption.
+  - apply inv_ndrop. exact H.
+  - apply inv_ndup. exact H.
+  - destruct (h2n s) as [|f q] eqn:E; [exact H|]. eapply inv_ncorrupt; eassumption.
+Qed.
+
+Lemma link_run_snoc K ls l : link_run K (ls ++ [l]) = link_step K (link_run K ls) l.
+Proof. unfold link_run. rewrite fold_left_app. reflexivity. Qed.
+
+Lemma lsubmits_app a b : lsubmits (a ++ b) = lsubmits a ++ lsubmits b.
+Proof. unfold lsubmits. apply flat_map_app. Qed.
+
+Theorem run_inv K ls : K <= 7 -> SInv K (lsubmits ls) (link_run K ls).
+Proof.
+  intro HK. induction ls as [|l ls IH] using rev_ind.
+  - exists [], [], 0. apply inv_init.
+  - rewrite link_run_snoc, lsubmits_app. apply inv_step; assumption.
+Qed.
+
+(* ================================================================================================ *)
+(* (5) the theorems                                                                                  *)
+(* ================================================================================================ *)
+Lemma prefix_firstn {A} (l : list A) n : prefix_of (firstn n l) l.
+Proof. exists (skipn n l). symmetry. apply firstn_skipn. Qed.
+
+(* NCP -> host: what the host hands up is a prefix of what the NCP's upper layer submitted *)
+Theorem ncp_to_host_prefix K ls : K <= 7 ->
+  prefix_of (hups (link_run K ls)) (n_sub (ns (link_run K ls))).
+Proof.
+  intro HK. destruct (run_inv K ls HK) as (g1 & g2 & hb & HI).
+  unfold hups. rewrite (d_del _ _ _ _ _ _ _ _ _ (i_d1 _ _ _ _ _ _ HI)). apply prefix_firstn.
+Qed.
+
+(* host -> NCP: what the NCP hands up is a prefix of the payloads in first-transmission order,
+   the k-th payload handed up belongs to the k-th send first-transmitted, and the sends are first
+   transmitted in the order in which they were submitted *)
+Theorem host_to_ncp_prefix K ls : K <= 7 ->
+  let s := link_run K ls in
+  prefix_of (nups s) (map snd (first_tx (htrace s)))
+  /\ map snd (ncp_deliveries s) = nups s
+  /\ subseq (first_tx (htrace s)) (lsubmits ls).
+Proof.
+  intros HK s. subst s. destruct (run_inv K ls HK) as (g1 & g2 & hb & HI).
+  pose proof (d_del _ _ _ _ _ _ _ _ _ (i_d2 _ _ _ _ _ _ HI)) as Hdel.
+  split; [|split].
+  - rewrite Hdel at 1. apply prefix_firstn.
+  - unfold ncp_deliveries. rewrite <- firstn_map, <- (i_nr _ _ _ _ _ _ HI). symmetry. exact Hdel.
+  - destruct (hl_sub _ _ _ _ _ (i_hl _ _ _ _ _ _ HI)) as (A & HA & Hss). rewrite HA.
+    apply subseq_app_r. exact Hss.
+Qed.
+
+Lemma oks_In l id : In (HDone id OOk) l <-> In id (oks l).
+Proof.
+  unfold oks. rewrite in_flat_map. split.
+  - intro H. exists (HDone id OOk). split; [exact H|left; reflexivity].
+  - intros (o & Ho & Hin). destruct o as [| | | | | |i oc]; try (destruct Hin; fail).
+    destruct oc; try (destruct Hin; fail). destruct Hin as [E|[]]. subst i. exact Ho.
+Qed.
+
+Lemma in_firstn_le {A} (l : list A) n m x : n <= m -> In x (firstn n l) -> In x (firstn m l).
+Proof.
+  intro H. induction H as [|m H IH]; [intro Hx; exact Hx|]. intro Hx. apply in_firstn_S. apply IH. exact Hx.
+Qed.
+
+Lemma deliveries_nodup K ls : K <= 7 -> NoDup (map fst (lsubmits ls)) ->
+  NoDup (map fst (ncp_deliveries (link_run K ls))).
+Proof.
+  intros HK Hnd. destruct (host_to_ncp_prefix K ls HK) as (_ & _ & Hss). cbv zeta in Hss.
+  eapply subseq_NoDup; [|exact Hnd]. apply subseq_map. unfold ncp_deliveries.
+  eapply (subseq_app_r _ _ []) in Hss. rewrite app_nil_r in Hss.
+  clear Hnd. revert Hss. generalize (lsubmits ls). generalize (first_tx (htrace (link_run K ls))).
+  generalize (length (nups (link_run K ls))). intros n l. revert n.
+  induction l as [|x l IH]; intros n l2 H.
+  - rewrite firstn_nil. exact H.
+  - destruct n as [|n]; cbn [firstn]; [apply subseq_nil_l|].
+    remember (x :: l) as xl eqn:Exl. revert x l IH Exl.
+    induction H as [|y l1 l2 H IHs|y l1 l2 H IHs]; intros x l IH Exl; [discriminate| |].
+    + apply ss_skip. eapply IHs; eassumption.
+    + injection Exl as E1 E2. subst y l1. apply ss_take. apply IH. exact H.
+Qed.
+
+(* a send reported done has been handed to the NCP's upper layer, exactly once *)
+Theorem completed_delivered K ls id : K <= 7 -> NoDup (map fst (lsubmits ls)) ->
+  let s := link_run K ls in
+  In (HDone id OOk) (htrace s) ->
+  count_occ N.eq_dec (map fst (ncp_deliveries s)) id = 1
+  /\ exists p, In (id, p) (lsubmits ls) /\ In (id, p) (ncp_deliveries s).
+Proof.
+  intros HK Hnd s Hin. subst s. apply oks_In in Hin.
+  destruct (run_inv K ls HK) as (g1 & g2 & hb & HI).
+  pose proof (hl_ok _ _ _ _ _ (i_hl _ _ _ _ _ _ HI) id Hin) as Hd.
+  pose proof (i_d2 _ _ _ _ _ _ HI) as D2. destruct D2 as [Hbr _ _ _ _ _ _ _ _].
+  rewrite (i_nr _ _ _ _ _ _ HI) in Hbr.
+  apply in_map_iff in Hd. destruct Hd as ([i p] & Ei & Hd). cbn [fst] in Ei. subst i.
+  apply (in_firstn_le _ _ _ _ Hbr) in Hd.
+  split.
+  - apply NoDup_count_occ'; [apply deliveries_nodup; assumption|].
+    apply in_map_iff. exists (id, p). split; [reflexivity|exact Hd].
+  - exists p. split; [|exact Hd].
+    destruct (host_to_ncp_prefix K ls HK) as (_ & _ & Hss). cbv zeta in Hss.
+    eapply subseq_In; [exact Hss|]. eapply subseq_In; [apply subseq_firstn|exact Hd].
+Qed.
+
+(* whatever its outcome (failure, cancellation, none yet), no send is handed up twice *)
+Theorem at_most_once K ls id : K <= 7 -> NoDup (map fst (lsubmits ls)) ->
+  count_occ N.eq_dec (map fst (ncp_deliveries (link_run K ls))) id <= 1.
+Proof.
+  intros HK Hnd. apply (proj1 (NoDup_count_occ N.eq_dec _)). apply deliveries_nodup; assumption.
 Qed.
